@@ -137,7 +137,8 @@ pub fn run(prop: &'static str, tier: Tier, seed: u64) -> i32 {
         specs.retain(|s| {
             let n = per_kind.entry(s.cfg.kind).or_insert(0);
             *n += 1;
-            *n <= 2
+            // W-TinyLFU's own property runs every closure on the no_std sketch as well
+            *n <= 2 || prop == "C10"
         });
     }
     let mut explores: Vec<Explore> = vec![];
@@ -187,8 +188,11 @@ pub fn run(prop: &'static str, tier: Tier, seed: u64) -> i32 {
             reports.push(crate::lfu::run_tinylfu("C05", tier));
             reports.push(crate::lfu::run_sampled("C05", tier));
         }
+        "C01" | "C06" => reports.push(crate::sweeps::capacity_sweep(tier)),
+        "C08" => reports.push(crate::sweeps::quota_sweep(tier)),
         "C11" => reports.push(crate::lfu::run_tinylfu("C11", tier)),
         "C12" => reports.push(crate::grid::put_result_structural()),
+        "C15" => reports.push(crate::faults::run_callback_consistency(tier)),
         "C16" => reports.push(crate::lfu::run_tinylfu("C16", tier)),
         "C17" => {
             reports.push(crate::grid::conversion_determinism(tier));
@@ -239,6 +243,9 @@ pub fn run(prop: &'static str, tier: Tier, seed: u64) -> i32 {
     }
     for r in &reports {
         for e in dedupe(r.violations.clone()) {
+            if e.finding.prop != prop {
+                continue; // an engine shared by several properties: each check reports its own clauses only
+            }
             emit(&e.finding, e.case.clone(), e.count, &mut lines, &mut new_violations, &mut known_hits);
         }
     }
